@@ -5,6 +5,7 @@ import CM.Driver.OpsReg
 import CM.Driver.OpsSel
 import CM.Driver.OpsRun
 import CM.Driver.OpsDiff
+import CM.Driver.OpsC19
 open Lean
 namespace CM.Driver
 
@@ -60,6 +61,8 @@ def dispatch (j : Json) : Except String Json := do
   | "run" => opRun j
   | "unified_diff" => opUnifiedDiff j
   | "patch_text" => opPatchText j
+  | "regex_pipe" => opRegexPipe j
+  | "xml_pipe" => opXmlPipe j
   | _ => .error s!"bad-op: unknown op {op}"
 
 end CM.Driver
